@@ -896,6 +896,9 @@ def _value(ex, e, res, depth):
         lid = e["res"]["id"]
         path, init, pat = _pattern_source(ex, lid, with_pat=True)
         if path is None:
+            # a parameter of a private helper (`write_local_variable_access(w, opcode, .., index.index)`): the kind of the value is the
+            # kind of the argument at the helper's call sites, when they all agree
+            _param_kind(ex, lid, res, depth)
             return
         if path and path[-1][0] == "field":
             res["f"] = path[-1][1]
@@ -928,6 +931,47 @@ def _value(ex, e, res, depth):
         if path and path[-1][0] == "pos" and path[-1][2] is None:
             res["f"] = "#%d" % path[-1][1]
         return
+
+
+class _BodyView:
+    """the classification context of another function body of the same crate (only what `_value` reads)"""
+
+    def __init__(self, ex, body):
+        self.crate = ex.crate
+        self.fn = body
+        self.side = getattr(ex, "side", "w")
+        self.index = getattr(ex, "index", None)
+
+
+def _param_kind(ex, lid, res, depth):
+    fn = ex.fn
+    pos = None
+    for i, prm in enumerate(fn.get("params") or []):
+        if any(j == lid for j, _ in H.pat_bindings(prm)):
+            pos = i
+    if pos is None or depth > 3:
+        return
+    kinds = []
+    for b in ex.crate.bodies:
+        if not isinstance(b.get("body"), dict) or b is fn:
+            continue
+        for n in H.walk(b["body"]):
+            if n.get("k") not in ("call", "mcall"):
+                continue
+            c = n.get("callee") or {}
+            if (c.get("inst_key") or c.get("key")) != fn["key"]:
+                continue
+            args = ([n["recv"]] if n.get("k") == "mcall" else []) + list(n["args"])
+            if pos >= len(args):
+                kinds.append(None)
+                continue
+            r2 = {"kind": None, "refine": None, "f": None, "const": None}
+            ex2 = _BodyView(ex, b)
+            _value(ex2, args[pos], r2, depth + 1)
+            kinds.append(r2.get("kind"))
+    ks = set(kinds)
+    if len(ks) == 1 and None not in ks:
+        res["kind"] = kinds[0]
 
 
 def _tail_expr(n):
